@@ -1055,11 +1055,14 @@ class Parser:
             if t.text in ("|", "||"):
                 return self.closure()
             if t.text == "<":
+                q0 = self.i
                 self.skip_generics()
+                # the text of the qualifier `<T as Trait>` is kept (attribute `qual`, blanks removed) for vocabulary callables
+                qual = "".join(x.text for x in self.toks[q0:self.i])
                 segs = ["<q>"]
                 while self.accept("::"):
                     segs.append(self.ident())
-                return N("path", segs=segs)
+                return N("path", segs=segs, qual=qual)
             if t.text == "::":
                 segs = self.expr_path_segs()
                 return self.after_path(segs)
